@@ -8,6 +8,7 @@
 
 use proc_macro::TokenStream;
 use quote::quote;
+use syn::ext::IdentExt;
 use syn::{Data, DeriveInput, Fields, parse_macro_input};
 
 /// Generates reflection methods for Incan classes/models.
@@ -34,7 +35,7 @@ use syn::{Data, DeriveInput, Fields, parse_macro_input};
 pub fn derive_incan_class(input: TokenStream) -> TokenStream {
     let input = parse_macro_input!(input as DeriveInput);
     let name = &input.ident;
-    let name_str = name.to_string();
+    let name_str = name.unraw().to_string();
 
     // Get field names
     let field_names: Vec<String> = match &input.data {
@@ -42,7 +43,7 @@ pub fn derive_incan_class(input: TokenStream) -> TokenStream {
             Fields::Named(fields) => fields
                 .named
                 .iter()
-                .filter_map(|f| f.ident.as_ref().map(|i| i.to_string()))
+                .filter_map(|f| f.ident.as_ref().map(|i| i.unraw().to_string()))
                 .collect(),
             Fields::Unnamed(fields) => (0..fields.unnamed.len()).map(|i| i.to_string()).collect(),
             Fields::Unit => vec![],
@@ -141,7 +142,7 @@ pub fn derive_field_info(input: TokenStream) -> TokenStream {
                     .named
                     .iter()
                     .filter_map(|f| {
-                        let field_name = f.ident.as_ref()?.to_string();
+                        let field_name = f.ident.as_ref()?.unraw().to_string();
                         let ty = &f.ty;
                         let field_type = quote!(#ty).to_string();
                         Some((field_name, field_type))
